@@ -490,7 +490,7 @@ fn main() {
                 let mut rec: BTreeMap<String, String> = BTreeMap::new();
                 for step in 0..len {
                     let now = seq(&sys.e) as i64;
-                    let dt = *pick(&mut r, &[0i64, 0, 0, 0, 0, 0, 1, 1, 3, 20]);
+                    let dt = if r.gen_ratio(1, 25) { 3000 } else { *pick(&mut r, &[0i64, 0, 0, 0, 0, 0, 1, 1, 3, 20]) };
                     let get = |o: &Value, f: &str, a: &str| o[f][a].as_i64().unwrap_or(0);
                     // state feedback: prefer senders that hold something
                     let holders: Vec<&str> = an.iter().copied().filter(|a| get(&obs, "bal", a) > 0).collect();
